@@ -49,6 +49,9 @@ class ParseFromText(Contract):
 
     def hooks(self, ctx):
         def host_call(eng, st, fn, args, kwargs):
+            if isinstance(getattr(fn, "__self__", None), re.Pattern):
+                # a method of a pattern compiled when the module was loaded
+                return self.method_call(ctx)(eng, st, fn.__self__, fn.__name__, args, kwargs)
             if fn is re.compile and args and isinstance(args[0], str):
                 p = PatternObj(args[0], args[1] if len(args) > 1 else kwargs.get("flags", 0))
                 ctx.data["patterns"].append(p.pattern)
@@ -64,6 +67,11 @@ class ParseFromText(Contract):
 
     def method_call(self, ctx):
         def hook(eng, st, recv, name, args, kwargs):
+            if isinstance(recv, re.Pattern):
+                # a pattern compiled when the module was loaded (module-level constant)
+                if recv.pattern not in ctx.data["patterns"]:
+                    ctx.data["patterns"].append(recv.pattern)
+                recv = PatternObj(recv.pattern, recv.flags)
             if isinstance(recv, PatternObj):
                 if name == "findall" and len(args) == 1 and isinstance(args[0], SStr):
                     tz = args[0].z
